@@ -381,14 +381,14 @@ def run(ctx):
     d = ctx.tmpdir("files")
     files = recipes.make_files(d)
     # ---- request views
-    for i in range(ctx.scale(2500, 60_000)):
+    for i in range(ctx.scale(2500, 200_000)):
         rq, order = gen_view_request(rng)
         check_view(ctx, rq, order)
         ctx.case(repr((rq, order)) if (rq["headers"] or rq["path"] != "/" or rq["chunks"] != [b""]) else None)
         if i < 2:
             ctx.sample("request-view", dict(rq, access_order=order))
     # ---- response recipes and shortcuts
-    for i in range(ctx.scale(2500, 60_000)):
+    for i in range(ctx.scale(2500, 200_000)):
         rec = recipes.gen_response(rng, files, allow_raise=rng.random() < 0.1)
         rh = rng.choice(recipes.RANGE_HEADERS + ["bytes=0-0", None, None]) if rec["cls"] == "File" else None
         hdrs = [("Range", rh)] if rh is not None else []
@@ -400,7 +400,7 @@ def run(ctx):
         ctx.case(repr((rec, method, hdrs, wrapper)))
         ctx.sample("recipe-" + wrapper, {"recipe": rec, "method": method, "headers": hdrs}, cap=1)
     # ---- routing
-    for i in range(ctx.scale(300, 8000)):
+    for i in range(ctx.scale(300, 30_000)):
         check_router(ctx, rng)
         check_mounts(ctx, rng)
         check_hosts(ctx, rng)
@@ -418,7 +418,7 @@ def run(ctx):
         apps[(iface, "Files")] = ns.Files(served)
         apps[(iface, "Pages")] = ns.Pages(served, cacheability="private", max_age=5)
     validators = {}
-    for i in range(ctx.scale(4000, 100_000)):
+    for i in range(ctx.scale(4000, 400_000)):
         key = check_static(ctx, rng, apps, validators)
         ctx.case(("static",) + key)
     ctx.sample("static", {"app": "Pages", "path": "/dir", "method": "GET", "headers": [("If-None-Match", "*")]})
